@@ -380,7 +380,7 @@ pub fn run(ctx: &Ctx) -> Report {
     );
     rep.assumptions.push("only well-formed inputs: required streams present, references in range, complete column numbering, known value types, NUL-terminated LPSTR, no under-counted references (those are C09's domain)".into());
     let mut st = Stats::new();
-    let v = search(ctx, "db", ctx.tier.pick(3_000, 100_000), db_strategy, |db: &AbsDb, st| {
+    let v = search(ctx, "db", ctx.tier.pick(20_000, 200_000), db_strategy, |db: &AbsDb, st| {
         st.eval();
         let f = features(db);
         if !f.is_empty() {
